@@ -14,7 +14,9 @@ EXPLANATION = (
     "side, applying reversed swaps them (the two accessors are inverse case tables over the direction); (R4) the splice of C03 (R1-R3: "
     "replaced range, inserted lines, running offset, one report per hunk); (R5) the placement rules of C02-R4: the position the header "
     "names is compared first, matches() answers false without comparing only for positions outside [0, len - len(old side)] - an empty "
-    "old side at the very end of the file included - and compares exactly the old side. Not decided: parsing of every header dialect, line "
+    "old side at the very end of the file included - and compares exactly the old side; (R6) a hunk's prefix / suffix "
+    "context counts are counted from the line markers while the hunk is read (one increment per ' ' line, suffix back to 0 at every "
+    "changed line), not inferred from line contents. Not decided: parsing of every header dialect, line "
     "terminators and the no-newline marker, equality of line contents, and '-0,0' hunks against an existing non-empty file (taken for a "
     "creation, refused) - listed in DESIGN §8.9."
 )
@@ -146,10 +148,74 @@ def r3(ck, rule="C01-R3"):
     # try_apply_hunk compares the old side, apply_modify splices old -> new: C03-R1 / C02-R4 check the accessors used there
 
 
+def r6(ck, rule="C01-R6"):
+    """prefix_context / suffix_context are the numbers of leading / trailing *context lines* of the hunk (lines marked ' '), counted
+    while the lines are read: anchoring (C02-R2), fuzz trimming (C02-R3) and the frozen line (C03-R4) all rest on them.  A count
+    taken from line *contents* instead (common prefix of the two sides) differs when a changed line repeats its neighbour."""
+    ph = ck.anchor("libpatch::patch::unified::parser::parse_hunk")
+    if ph is None:
+        return
+    sws = pt.discr_switches(ph, lambda e, rv: (rv.get("adt") or "").endswith("HunkLineType"))
+    if not ck.require(len(sws) == 1 and {"Add", "Remove", "Context"} <= set(sws[0]["edges"]), rule, "parse_hunk dispatches on the line marker",
+                      "%d matches on HunkLineType" % len(sws), ph.where()):
+        return
+    sw = sws[0]
+    arm = {v: cfg.dominated_by_edge(ph, sw["edges"][v]) for v in ("Add", "Remove", "Context")}
+    stores = {"prefix_context": [], "suffix_context": []}
+    for bb, idx, s in ph.stmts():
+        if s["k"] != "assign" or "p" not in s["lhs"]:
+            continue
+        names = [p_.get("name") for p_ in s["lhs"]["p"] if isinstance(p_, dict)]
+        for f in stores:
+            if names and names[-1] == f:
+                e = df.rvalue_expr(ph, s["rv"])
+                kind = "other"
+                if e == ("const", 0, "usize"):
+                    kind = "reset"
+                else:
+                    x = e
+                    if isinstance(x, tuple) and x[0] == "field" and x[2] == 0 and isinstance(x[1], tuple) and x[1][0] == "bin":
+                        x = x[1]
+                    if isinstance(x, tuple) and x[0] == "bin" and x[1].startswith("Add") and x[3] == ("const", 1, "usize") and \
+                            isinstance(x[2], tuple) and x[2][0] == "field" and x[2][2] == f:
+                        kind = "inc"
+                stores[f].append((bb, s, kind, df.show(e, 80)))
+    pre, suf = stores["prefix_context"], stores["suffix_context"]
+    ck.floor(rule, "updates of the context counters in parse_hunk", len(pre) + len(suf), 3)
+    okp = bool(pre) and all(k == "inc" and bb in arm["Context"] for bb, s, k, sh in pre)
+    ck.require(okp, rule, "prefix_context counts leading context lines",
+               "prefix_context is updated as %s: not one increment per line marked ' '" % [(sh, "in Context arm" if bb in arm["Context"] else "elsewhere") for bb, s, k, sh in pre],
+               ph.where(pre[0][1]) if pre else ph.where(), ok_detail="+= 1 on the Context arm only")
+    incs = [x for x in suf if x[2] == "inc"]
+    resets = [x for x in suf if x[2] == "reset"]
+    oks = bool(incs) and all(bb in arm["Context"] for bb, s, k, sh in incs) and not [x for x in suf if x[2] == "other"] and \
+        any(bb in arm["Add"] for bb, s, k, sh in resets) and any(bb in arm["Remove"] for bb, s, k, sh in resets) and \
+        all(bb in arm["Add"] or bb in arm["Remove"] for bb, s, k, sh in resets)
+    ck.require(oks, rule, "suffix_context counts trailing context lines",
+               "suffix_context is updated as %s: not '+= 1 per context line, back to 0 at every changed line'" % [(sh, k) for bb, s, k, sh in suf],
+               ph.where(suf[0][1]) if suf else ph.where(), ok_detail="+= 1 on the Context arm, = 0 on the Add and Remove arms")
+    # leading vs trailing: the two increments sit on opposite sides of one flag that the Add and Remove arms set
+    if pre and incs:
+        good = False
+        for g in guards.find_bool_guards(ph, lambda e: isinstance(e, tuple) and e[0] == "local"):
+            tr, fr = cfg.dominated_by_edge(ph, g["true_edge"]), cfg.dominated_by_edge(ph, g["false_edge"])
+            flag = g["expr"][1]
+            if all(bb in fr for bb, s, k, sh in pre) and all(bb in tr for bb, s, k, sh in incs):
+                sets = [dd for dd in df.defs_of(ph).all(flag) if dd[0] == "stmt"]
+                t_in = [dd for dd in sets if df.rvalue_expr(ph, dd[3]["rv"]) == ("const", 1, "bool")]
+                f_in = [dd for dd in sets if df.rvalue_expr(ph, dd[3]["rv"]) == ("const", 0, "bool")]
+                if any(dd[1] in arm["Add"] for dd in t_in) and any(dd[1] in arm["Remove"] for dd in t_in) and \
+                        all(cfg.innermost_loop_of(ph, dd[1]) is None for dd in f_in) and len(t_in) + len(f_in) == len(sets):
+                    good = True
+        ck.require(good, rule, "context lines before the first changed line count as prefix, later ones as suffix",
+                   "the two counters are not separated by a flag that the Add and Remove arms set", ph.where(pre[0][1]))
+
+
 def run(ck):
     r1(ck)
     r2(ck)
     r3(ck)
+    r6(ck)
     from . import c02, c03
     c03.run(ck_alias(ck, "C01-R4"), with_order=False)
     # the position a correct diff names is probed first and accepted whenever the old side is there (matches() refuses without
